@@ -39,6 +39,9 @@ class OsslEndpoint {
     bool got_close_notify = false;
     Fingerprint fp;
     ~OsslEndpoint();
+    Bytes early_payload;                           // client, TLS 1.3 resumption: written as 0-RTT data with the ClientHello (set before create)
+    int early_write_rc = -2;                       // SSL_write_early_data result (-2: not attempted)
+    int early_status();                            // 0 not sent, 1 rejected, 2 accepted (SSL_get_early_data_status)
     bool create(OsslShared *sh, bool resume);     // resume: client offers the session saved in sh
     int feed(const unsigned char *p, size_t n);    // network input
     Bytes pull(size_t max = (size_t) -1);          // pending output
